@@ -69,6 +69,7 @@ type c02Ctl struct {
 	runs    int32
 	gexit   int32
 	settle  time.Duration
+	null    bool // a successor job scheduled under the same name: its hooks are ignored
 }
 
 var c02Ctls sync.Map // *job -> *c02Ctl
@@ -83,7 +84,7 @@ func c02Install() {
 			}
 			time.Sleep(250 * time.Microsecond)
 		}
-		if ctl == nil {
+		if ctl == nil || ctl.null {
 			return
 		}
 		ctl.hook(point)
@@ -390,6 +391,24 @@ func c02Gated(t testing.TB, tr *verifsupport.Trace, sc c02Scenario, settle time.
 			}
 		case "step":
 			step(tok.Who)
+		case "resched":
+			// the same name is scheduled again (far in the future): accepted iff the name is free
+			// (its own parent context: the successor is a different duty and outlives the scenario's context)
+			bctx, bcancel := context.WithCancel(context.Background())
+			defer bcancel()
+			err := s.ScheduleJob(bctx, "Test", name, time.Now().Add(time.Hour), func(context.Context) {})
+			if err == nil {
+				s.jobsMutex.RLock()
+				jb := s.jobs[name]
+				s.jobsMutex.RUnlock()
+				if jb != nil && jb != j {
+					c02Ctls.Store(jb, &c02Ctl{null: true})
+					defer c02Ctls.Delete(jb)
+				}
+			}
+			ctl.emit(verifsupport.Ev{"ev": "Resched", "ok": err == nil})
+		case "probe":
+			ctl.emit(verifsupport.Ev{"ev": "Probe", "exists": s.JobExists(ctx, name)})
 		case "timer":
 			waitTimer()
 		case "ctx":
